@@ -107,8 +107,10 @@ class Oracle:
         bp = self.bpp // 8
         hd = (x, y, w, h, e)
         if e in PIXEL_ENCS or e == E["CopyRect"]:
-            if self.bpp not in (8, 16, 32):
-                raise Bad("bpp", "pixel data for unsupported bpp %d" % self.bpp)
+            # 8/16/32 for every encoding; this build also accepts a 24-bit client format
+            # (LIBVNCSERVER_ALLOW24BPP), which only verbatim-pixel encodings can serve
+            if not (self.bpp in (8, 16, 32) or (self.bpp == 24 and e in (E["Raw"], E["CopyRect"], E["Zlib"], E["Ultra"]))):
+                raise Bad("bpp", "%s rectangle for a client with %d bits per pixel" % (ENAME.get(e, e), self.bpp))
             if e != E["Raw"] and e not in self.named:
                 raise Bad("caps", "encoding %s used but never advertised by the client" % ENAME.get(e, e),
                           enc=ENAME.get(e, str(e)))
@@ -732,6 +734,23 @@ def source_resets_extclip():
     return _RESET_EXTCLIP
 
 
+_SRC = {}
+
+
+def source_has(key):
+    """which proposed repairs are present in the source text (decided on every run)"""
+    if not _SRC:
+        try:
+            txt = open(os.path.join(vlib.REPO, "src", "libvncserver", "rfbserver.c"), errors="replace").read()
+        except OSError:
+            txt = ""
+        m = re.search(r"\nrfbSendFramebufferUpdate\(.*?\n\}\n", txt, flags=re.S)
+        body = m.group(0) if m else ""
+        _SRC["raw24"] = bool(re.search(r"format\.bitsPerPixel\s*==\s*24.*?cl->preferredEncoding\s*=\s*rfbEncodingRaw\s*;", body, flags=re.S))
+        _SRC["wrapfix"] = bool(re.search(r"goto\s+countRects\s*;", body)) and "lastRectMode" in body
+    return _SRC[key]
+
+
 def scaled_request_accepted(W, H, sw, sh, x, y, w, h):
     """rectSwapIfLEAndClip for a scaled client: rfbScaledCorrection(scaledScreen -> screen) in IEEE
     doubles, the uint16 clipping, and the empty-request test"""
@@ -778,8 +797,9 @@ def model_script(case_lines, ops):
             o = parse_kv(op)
             scr.update(pw=o.get("pw", 0), namelen=o.get("namelen", 5))
             M.append("screen " + " ".join("%s=%s" % kv for kv in scr.items()) +
-                     " dontconv=%d xvp=%d utf8=%d ledhook=%d resetextclip=%d" % (o.get("dontconv", 0), o.get("xvp", 0), o.get("utf8", 0),
-                                                                                  o.get("ledhook", 0), int(source_resets_extclip())))
+                     " dontconv=%d xvp=%d utf8=%d ledhook=%d resetextclip=%d raw24=%d wrapfix=%d" % (
+                         o.get("dontconv", 0), o.get("xvp", 0), o.get("utf8", 0), o.get("ledhook", 0),
+                         int(source_resets_extclip()), int(source_has("raw24")), int(source_has("wrapfix"))))
             continue
         if name == "connect":
             hexs = [l.split(" ", 1)[1] for l in got if l.startswith("hs ")]
